@@ -13,7 +13,7 @@ def main():
         prog, secs = driver.load('server', 'server', ['c09_harness.go', 'c09_intr_sym.go'], [e])
         run.log('SSA of %d functions built in %.1fs' % (len(prog['funcs']), secs))
         stubs.HAVOC_BOUND['n'] = 3 if run.thorough else 2
-        res, ex = driver.run_entry(run, prog, e, stubs.make_stubs(), loop_bound=16, max_paths=200000, trace_calls=(').ProveInsertion', ').ProveDeletion'))
+        res, ex = driver.run_entry(run, prog, e, stubs.make_stubs(), loop_bound=16, max_paths=200000, trace_calls=(').ProveInsertion', ').ProveDeletion', 'Parameters).UnmarshalJSON'))
         run.log(e, run.extra['paths'].get(e), 'solver calls', ex.solver_calls, '%.1fs' % ex.solver_time)
         fails = [r for r in res if r.status in ('assert', 'panic')]
         seen = set()
